@@ -20,6 +20,11 @@ Print Assumptions C02_json_ast.
 Theorem C02_glencoe_ptrs : forall d pm, glencoe_read d = Ok pm -> ptr_wf pm = true.
 Proof. exact glencoe_read_ptr_wf. Qed.
 Print Assumptions C02_glencoe_ptrs.
+(* after the fix of the reader (no group relation for a group whose members are all mandatory): for EVERY
+   document, no hypothesis on it *)
+Theorem C02_glencoe_nonempty : forall d pm, glencoe_read d = Ok pm -> rels_nonempty_p (proot pm) = true.
+Proof. exact glencoe_read_nonempty. Qed.
+Print Assumptions C02_glencoe_nonempty.
 Theorem C02_glencoe_ast : forall d pm, glencoe_read d = Ok pm -> forallb (fun c => node_shape_ok (c_ast c)) (pctcs pm) = true.
 Proof. exact glencoe_read_ctc_shape. Qed.
 Print Assumptions C02_glencoe_ast.
